@@ -131,6 +131,12 @@ def gen_explicit(tier, seed):
                                 continue
                             yield {"slice": "explicit", "d": d, "box": box, "L": L, "placement": name, "frames": fr,
                                    "types": types, "qlist": ql, "q": qlist(ql, d), "mode": "explicit", "csv": False}
+                            if F == 1 and ql in ("neg", "shell1", "six") and not name.startswith("sub"):
+                                # options that are documented to apply to the GENERATED set only ("if None (default) use qrange & onlypositive")
+                                # given together with an explicit list: all supplied vectors must still be used
+                                for opts in ({"onlypositive": True}, {"onlypositive": "x", "qrange": 1.0}, {"qrange": 0.5}):
+                                    yield {"slice": "explicit", "d": d, "box": box, "L": L, "placement": name, "frames": fr, "types": types,
+                                           "qlist": ql, "q": qlist(ql, d), "mode": "explicit", "csv": False, "opts": opts}
                             if F > 1 and len(set(types)) > 1 and ql in ("six", "neg"):
                                 # the species attached to the ids change from frame to frame (same composition: swap moves, relabelled frames)
                                 tv = [types[f:] + types[:f] for f in range(F)]
@@ -494,7 +500,9 @@ def _run(case):
     if case["mode"] == "explicit":
         qarr = np.array(qint, dtype=case.get("qdtype", "int64"))
         q0 = qarr.copy()
-        obj = sq(snaps, qvector=qarr, **kw)
+        if case.get("opts"):
+            sig["opts"] = "+".join(sorted(case["opts"]))
+        obj = sq(snaps, qvector=qarr, **kw, **(case.get("opts") or {}))
     else:
         obj = sq(snaps, qrange=case["qrange"], onlypositive=case["onlypositive"], **kw)
         got = sorted(tuple(int(x) for x in v) for v in np.asarray(obj.df_qvector.values).tolist())
